@@ -26,7 +26,7 @@ func trimGorootClass(res *RunResult) string {
 var footerRE = regexp.MustCompile(`(?m)^at (.+):(\d+)$`)
 
 func checkC11(c *vkit.Ctx) {
-	c.P.Rule = "case = real test program (root package and a package two levels deep; helpers in the same test file, in a non-test file, in a sub-package; the call statement below 20-300 recursive frames of a non-test file; closures; goroutines; subtests 1-3 deep with spaces, `#`, unicode, `%`, `/` in their names) x Dir{unset, relative, nested relative, absolute} x Filename{unset,set} x Ext{unset,.txt} x the five entry points, launched (a) with cwd = package directory, (b) from three foreign working directories, (c) built with -trimpath and run from the package directory; oracle: the set of files created anywhere under the module tree, the absolute directory and the working directory == the set the C11 location function gives for the calls in the event log; then every value is changed under Update(false) and the `at <rel>:<line>` footer of each failure report must resolve to the same file; non-trivial = call through >=1 helper frame, or a non-default option, or the deep package; distinct by hash(scenario, launch mode)"
+	c.P.Rule = "case = real test program (root package and a package two levels deep; helpers in the same test file, in a non-test file, in a sub-package; the call statement below 20-300 recursive frames of a non-test file; closures; goroutines; bare deferred calls that run on normal return, during a recovered panic and during runtime.Goexit; subtests 1-3 deep with spaces, `#`, unicode, `%`, `/` in their names) x Dir{unset, relative, nested relative, absolute} x Filename{unset,set} x Ext{unset, .txt, .snapshot, .snap.json, .golden.txt, _v2, .snap} x the five entry points, launched (a) with cwd = package directory, (b) from three foreign working directories, (c) built with -trimpath and run from the package directory; oracle: the set of files created anywhere under the module tree, the absolute directory and the working directory == the set the C11 location function gives for the calls in the event log; then every value is changed under Update(false) and the `at <rel>:<line>` footer of each failure report must resolve to the same file; non-trivial = call through >=1 helper frame, or a non-default option, or the deep package; distinct by hash(scenario, launch mode)"
 	c.P.Assumptions = []string{"-trimpath combined with a foreign working directory is the README's documented limitation and is not generated", "subtest closures defined in non-test files and helpers living in another _test.go file are outside the statement's well-defined cases and are not generated"}
 	root := vkit.MkScratch("prog")
 	defer os.RemoveAll(root)
@@ -122,6 +122,9 @@ func runC11(c *vkit.Ctx, plain, trim *Program, foreign []string, absDir string, 
 			api := []string{"snap", "json", "yaml", "ssnap", "sjson"}[r.IntN(5)]
 			cl := Call{API: api, Dir: dirs[r.IntN(len(dirs))], Via: []string{"", "", "helper", "helper2", "subpkg", "closure", "goroutine", "direct-nontest", "direct-nontest", "direct-nontest-helper"}[r.IntN(10)]}
 			if r.IntN(8) == 0 {
+				cl.Via = []string{"defer-panic", "defer-goexit", "defer-return"}[r.IntN(3)]
+			}
+			if r.IntN(8) == 0 {
 				// the call statement below 20-300 frames of a non-test file (recursive helpers)
 				cl.Via = fmt.Sprintf("deep-nontest-%d", []int{20, 29, 30, 31, 32, 33, 40, 64, 100, 128, 300}[r.IntN(11)])
 			}
@@ -133,7 +136,8 @@ func runC11(c *vkit.Ctx, plain, trim *Program, foreign []string, absDir string, 
 				}
 			}
 			if r.IntN(3) == 0 {
-				cl.Ext = ".txt"
+				// extensions with several dots, without a dot, and ones that contain `.snap` themselves
+				cl.Ext = []string{".txt", ".txt", ".snapshot", ".snap.json", ".golden.txt", "_v2", ".snap"}[r.IntN(7)]
 			}
 			if r.IntN(10) == 0 && cl.Dir == "" && cl.File == "" && cl.Ext == "" && !strings.HasPrefix(cl.Via, "direct") {
 				cl.Pkg = true // package-level function
